@@ -181,7 +181,7 @@ def rule_r4(p, res):
     sites = 0
     for n in walk_own(f.node):
         if isinstance(n, ast.Assign) and isinstance(n.targets[0], ast.Name) and n.targets[0].id == "C" and isinstance(n.value, ast.BinOp) and isinstance(n.value.op, ast.Div) \
-                and any(isinstance(x, ast.Call) and (dotted(x.func) or "").split(".")[-1] == "dot" for x in ast.walk(n.value.left)):
+                and any(isinstance(x, ast.Call) and isinstance(x.func, ast.Attribute) and x.func.attr == "dot" for x in ast.walk(n.value.left)):
             sites += 1
             den = expand(n.value.right, d)
             ok = isinstance(den, ast.BinOp) and isinstance(den.op, ast.Sub) and norm(den.left) == n_name and const_value(den.right) == 1
